@@ -1,10 +1,13 @@
-"""Per-property translator parts: every `harness/translate_cNN.py` exporting `gen(mgr) -> {Module: lean_source}`."""
+"""Per-property translator parts: every `harness/translate_cNN.py` (and `translate_registry.py`) exporting
+`gen(mgr) -> {Module: lean_source}`."""
 import glob, importlib, os
 
 
 def gen(mgr):
     out = {}
     here = os.path.dirname(os.path.abspath(__file__))
-    for p in sorted(glob.glob(os.path.join(here, "translate_c[0-9][0-9].py"))):
-        out.update(importlib.import_module(os.path.basename(p)[:-3]).gen(mgr))
+    mods = sorted(os.path.basename(p)[:-3] for p in glob.glob(os.path.join(here, "translate_c[0-9][0-9].py")))
+    mods.append("translate_registry")
+    for m in mods:
+        out.update(importlib.import_module(m).gen(mgr))
     return out
